@@ -146,7 +146,14 @@ def make_harness(n_ops: int, first: int | None):
         from pyoak.origin import concat_origins, merge_origins
 
         srcs, pool = _pool()
-        earlier = e.flag("equal_source_with_other_text_sliced_earlier")
+        prehistory = e.pick(["none", "equal-source-with-other-text-sliced-earlier", "source-registry-cleared-after-the-operands-were-created"], "prehistory")
+        earlier = prehistory == "equal-source-with-other-text-sliced-earlier"
+        if prehistory.startswith("source-registry-cleared"):
+            # the source registry is a public, clearable table (Source.clear_registry()); origins created
+            # before the clearing stay valid objects and the algebra must not depend on the table
+            from pyoak.origin import Source
+
+            Source.clear_registry()
         if earlier:
             # an equal source (same uri and type: the text is no part of source equality) holding
             # another text -- a buffer re-parsed after an edit -- was sliced at every range before
@@ -166,7 +173,7 @@ def make_harness(n_ops: int, first: int | None):
                 idx.append(e.choice(len(pool), f"operand{k}"))
         ops = [pool[i] for i in idx]
         mode = e.pick(["merge", "concat", "plus"], "function")
-        scenario = {"operands": [_describe(d) for d, _ in ops], "function": mode, "equal_source_with_other_text_sliced_earlier": earlier}
+        scenario = {"operands": [_describe(d) for d, _ in ops], "function": mode, "prehistory": prehistory}
         objs = [o for _, o in ops]
         if mode == "merge":
             got = merge_origins(*objs)
@@ -189,7 +196,7 @@ def make_harness(n_ops: int, first: int | None):
                 e.assume(False)
             got = objs[0] + objs[1]
             _expect_add(e, srcs, ops[0], ops[1], got, scenario, "+")
-        e.distinct((tuple(idx), mode, earlier))
+        e.distinct((tuple(idx), mode, prehistory))
         return scenario
 
     return harness
